@@ -72,7 +72,7 @@ func replay(r *hx.Run, lines []string) {
 				}
 			}
 			r.Line(fmt.Sprintf("a %d %s %s", t, f[2], sm.arrive(t, f[2], owner)), "ok")
-		case "dag":
+		case "dag", "dagc":
 			n, _ := strconv.Atoi(f[1])
 			e, _ := strconv.Atoi(f[2])
 			dg = newDagWorld(r, n, e)
@@ -154,6 +154,9 @@ func corpus(r *hx.Run) {
 	seqCase(r, "dag", []string{"rlock:7", "unlock:7"})
 	seqCase(r, "dag", []string{"lock:7", "runlock:7"})
 	seqCase(r, "dag", []string{"rlock:1,2", "runlock:2,1", "runlock:1"})
+	seqCase(r, "dagc", []string{"rlock:7", "unlock:7"})
+	seqCase(r, "dagc", []string{"lock:7", "runlock:7"})
+	seqCase(r, "dagc", []string{"rlock:1,2", "runlock:2,1", "runlock:1"})
 	dg := func(n, e int, as ...arrival) { runDagCase(r, 0, n, e, as, 3, false) }
 	dg(3, 3, arrival{0, "lock", "0"}, arrival{1, "lock", "1"}, arrival{2, "rlock", "0,1"}, arrival{0, "unlock", "0"}, arrival{1, "unlock", "1"}) // the example of dagmutex.go
 	dg(3, 2, arrival{0, "rlock", "0,1"}, arrival{1, "lock", "1"}, arrival{2, "rlock", "1"}, arrival{0, "runlock", "1,0"})
@@ -195,6 +198,7 @@ func main() {
 	// (3) panic matrix: exhaustive over short sequential histories
 	enumSeq(r, "sm", []string{"lock", "unlock", "rlock", "runlock"}, 4)
 	enumSeq(r, "dag", []string{"lock:1", "unlock:1", "rlock:1", "runlock:1", "rlock:1,2", "runlock:1,2", "runlock:2", "unlock:2"}, 3)
+	enumSeq(r, "dagc", []string{"lock:1", "unlock:1", "rlock:1", "runlock:1", "rlock:1,2", "runlock:1,2", "runlock:2", "unlock:2"}, 3)
 	tSeq := time.Since(t0)
 	// (1) arrival orders
 	thorough := r.Tier == "thorough"
